@@ -130,6 +130,49 @@ Proof.
   - vm_compute. discriminate.
 Qed.
 
+(* ---- the thread-local FILLING stack of value.rs (ClsFillingStack) ---- *)
+
+(* every call of the rendering leaves the stack exactly as it found it, whatever the outcome
+   (tokens, `None`, panic = unwinding through the drop guards) *)
+Theorem C12_filling_stack_balanced :
+  forall (T key : Type) (key_eqb : key -> key -> bool) (body_of : key -> job T key)
+         (fuel : nat) (st : list key) (j : job T key) (r : outcome T) (st' : list key),
+    frender T key key_eqb body_of fuel st j = Some (r, st') -> st' = st.
+Proof. exact frender_balanced. Qed.
+
+(* consecutive top-level renderings on one thread (thread start: empty stack): the i-th result is
+   what a fresh thread / fresh process computes for that job alone — it does not depend on what
+   was rendered, failed or panicked before; the stack is empty again afterwards.  Hypothesis of the
+   model (stated, not proved): [body_of] is fixed, i.e. the type space is not mutated during the
+   renderings (`to_stream(&self)`, `output_value(&TypeSpace)`) *)
+Theorem C12_filling_renderings_independent :
+  forall (T key : Type) (key_eqb : key -> key -> bool) (body_of : key -> job T key)
+         (fuel : nat) (js : list (job T key)),
+    frender_seq T key key_eqb body_of fuel [] js =
+    (map (fun j => option_map fst (frender T key key_eqb body_of fuel [] j)) js, []).
+Proof. exact frender_seq_independent. Qed.
+
+(* the fuel of the model is not observable: once there is an answer, more fuel gives the same *)
+Theorem C12_filling_fuel_monotone :
+  forall (T key : Type) (key_eqb : key -> key -> bool) (body_of : key -> job T key)
+         (fuel : nat) (st : list key) (j : job T key) (x : outcome T * list key),
+    frender T key key_eqb body_of fuel st j = Some x ->
+    frender T key key_eqb body_of (S fuel) st j = Some x.
+Proof. exact frender_mono. Qed.
+
+(* the keys (type id, ADDRESS of the default value) are only compared for equality within one call
+   tree: renaming them injectively — another process, another TypeSpace with the same content at
+   other addresses — renders the same outcome *)
+Theorem C12_filling_address_irrelevant :
+  forall (T key key' : Type) (key_eqb : key -> key -> bool) (key_eqb' : key' -> key' -> bool) (ren : key -> key'),
+    (forall a b, key_eqb' (ren a) (ren b) = key_eqb a b) ->
+    forall (body_of : key -> job T key) (body_of' : key' -> job T key'),
+    (forall k, body_of' (ren k) = rename_job ren (body_of k)) ->
+    forall (fuel : nat) (st : list key) (j : job T key),
+      frender T key' key_eqb' body_of' fuel (map ren st) (rename_job ren j) =
+      rename_result ren (frender T key key_eqb body_of fuel st j).
+Proof. exact frender_rename. Qed.
+
 (* ---- sorted maps ---- *)
 
 (* JSON object parsing: member order (and, trivially, whitespace: it is not in the parsed list)
@@ -184,6 +227,13 @@ Example C12_ex_macro_impls :
   macro_impls [(true, IDefault); (false, IFromStr)] = [IDisplay; IDefault] /\
   macro_impls [(false, IFromStr); (true, IDefault); (true, IDisplay)] = [IDisplay; IDefault].
 Proof. vm_compute. repeat split; reflexivity. Qed.
+(* T { next: T default {} }: the member default contains itself; the guard cuts at the second level *)
+Example C12_ex_filling :
+  let body := fun _ : nat => JNode nat nat [10] [JLeaf nat nat [1]; JFill nat nat 0 [99]] in
+  frender nat nat Nat.eqb body 10 [] (JFill nat nat 0 [99]) = Some (ROk nat [10; 1; 99], []) /\
+  frender_seq nat nat Nat.eqb body 10 [] [JNode nat nat [7] [JFill nat nat 0 [99]; JPanic nat nat]; JFill nat nat 0 [99]]
+    = ([Some (RPanic nat); Some (ROk nat [10; 1; 99])], []).
+Proof. vm_compute. split; reflexivity. Qed.
 Example C12_ex_parse :
   parse_obj [("b", 1); ("a", 2)]%string = [("a", 2); ("b", 1)]%string /\
   parse_obj [("a", 2); ("b", 1)]%string = [("a", 2); ("b", 1)]%string /\
